@@ -157,15 +157,32 @@ pub enum Outcome {
     Valid(String, ast::Document),
 }
 
-pub fn generate(bytes: &[u8]) -> Result<Result<String, String>, String> {
+/// the nine `max_*` settings of `DocumentBuilder` in the order of `build()`'s phases:
+/// scalars, enums, interfaces, objects, unions, input objects, fragments, directives, operations
+pub type Limits = [usize; 9];
+
+pub fn generate(bytes: &[u8]) -> Result<Result<String, String>, String> { generate_l(None, bytes) }
+
+/// `build()` under the configured maximums (None = the defaults, 50 of each kind). With the defaults a
+/// byte string is mostly spent on the six type-system phases; low maximums let it reach the fragment and
+/// operation phases, which is where spreads, pruning, several operations and argument reuse happen
+pub fn generate_l(lim: Option<&Limits>, bytes: &[u8]) -> Result<Result<String, String>, String> {
     catch(|| {
         let mut u = Unstructured::new(bytes);
-        DocumentBuilder::new(&mut u).build().map(String::from).map_err(|e| format!("{e:?}"))
+        let mut b = DocumentBuilder::new(&mut u);
+        if let Some(l) = lim {
+            b = b.max_scalar_types(l[0]).max_enum_types(l[1]).max_interface_types(l[2]).max_object_types(l[3])
+                .max_union_types(l[4]).max_input_object_types(l[5]).max_fragment_definitions(l[6])
+                .max_directive_definitions(l[7]).max_operation_definitions(l[8]);
+        }
+        b.build().map(String::from).map_err(|e| format!("{e:?}"))
     })
 }
 
-pub fn outcome(bytes: &[u8]) -> Outcome {
-    match generate(bytes) {
+pub fn outcome(bytes: &[u8]) -> Outcome { outcome_l(None, bytes) }
+
+pub fn outcome_l(lim: Option<&Limits>, bytes: &[u8]) -> Outcome {
+    match generate_l(lim, bytes) {
         Err(m) => Outcome::Panic(m),
         Ok(Err(e)) => Outcome::GenErr(e),
         Ok(Ok(text)) => match ast::Document::parse(text.clone(), "smith.graphql") {
@@ -293,8 +310,8 @@ fn collect_spreads(sel: &[ast::Selection], out: &mut Vec<String>) {
 }
 
 /// correspondence cases + structural oracle on one generated (valid or not) document
-fn structure_checks(ctx: &mut Ctx, bytes: &[u8], doc: &ast::Document) {
-    let input = format!("bytes {}", bytes_str(bytes));
+fn structure_checks(ctx: &mut Ctx, input: &str, doc: &ast::Document, tag: &str) {
+    let input = input.to_string();
     // implements: after the backfill every type lists its whole closure
     let defs = implements_defs(doc);
     let mut edges: BTreeMap<String, Vec<String>> = BTreeMap::new();
@@ -317,7 +334,7 @@ fn structure_checks(ctx: &mut Ctx, bytes: &[u8], doc: &ast::Document) {
         line.push(format!("{n}:{}:{}", cl.iter().cloned().collect::<Vec<_>>().join(","), missing.join(",")));
     }
     ctx.case("c32.closure", &[enc_defs(&defs)], &line.join(";"));
-    if deep { ctx.nontrivial(&format!("closure{}", enc_defs(&defs))); ctx.stat("docs_with_transitive_implements"); }
+    if deep { ctx.nontrivial(&format!("closure{}", enc_defs(&defs))); ctx.stat(&format!("{tag}docs_with_transitive_implements")); }
 
     // fragments: pruning is at its fixed point, no spread dangles
     let mut ops: Vec<Vec<String>> = vec![];
@@ -342,8 +359,18 @@ fn structure_checks(ctx: &mut Ctx, bytes: &[u8], doc: &ast::Document) {
     let out = format!("{}|{}", kept.join(","), reachable.iter().cloned().collect::<Vec<_>>().join(","));
     let ops_f = ops.iter().map(|v| v.join(",")).collect::<Vec<_>>().join(";");
     let frags_f = frags.iter().map(|(n, v)| format!("{n}:{}", v.join(","))).collect::<Vec<_>>().join(";");
-    if !frags.is_empty() { ctx.stat("docs_with_fragments"); ctx.nontrivial(&format!("prune{frags_f}")); }
-    if frags.iter().any(|(_, v)| !v.is_empty()) { ctx.stat("docs_with_nested_fragment_spreads"); }
+    if !frags.is_empty() { ctx.stat(&format!("{tag}docs_with_fragments")); ctx.nontrivial(&format!("prune{frags_f}")); }
+    if frags.iter().any(|(_, v)| !v.is_empty()) { ctx.stat(&format!("{tag}docs_with_nested_fragment_spreads")); }
+    // shapes that distinguish reachability algorithms: a kept fragment that is only reachable through another
+    // fragment, a spread to a fragment defined EARLIER than its spreader / LATER, several operations
+    let direct: BTreeSet<&String> = ops.iter().flatten().collect();
+    if frags.iter().any(|(n, _)| reachable.contains(n) && !direct.contains(n)) { ctx.stat(&format!("{tag}docs_with_fragment_reached_only_through_fragments")); }
+    let pos = |n: &String| frags.iter().position(|(m, _)| m == n);
+    if frags.iter().enumerate().any(|(i, (_, v))| v.iter().any(|s| pos(s).is_some_and(|j| j < i))) { ctx.stat(&format!("{tag}docs_with_spread_to_earlier_fragment")); }
+    if frags.iter().enumerate().any(|(i, (_, v))| v.iter().any(|s| pos(s).is_some_and(|j| j > i))) { ctx.stat(&format!("{tag}docs_with_spread_to_later_fragment")); }
+    if ops.len() >= 2 { ctx.stat(&format!("{tag}docs_with_several_operations")); }
+    if ops.len() >= 2 && ops.iter().filter(|v| !v.is_empty()).count() >= 2 { ctx.stat(&format!("{tag}docs_with_several_operations_spreading")); }
+    if defs.iter().any(|d| d.extend && !d.interfaces.is_empty()) { ctx.stat(&format!("{tag}docs_with_implements_in_extension")); }
     ctx.case("c32.prune", &[format!("{ops_f};"), frags_f], &out);
 
     // names: one namespace for types, one for fragments, one for operations, one for directives
@@ -381,8 +408,40 @@ fn spell(s: &str) -> Vec<u8> {
     v
 }
 
-fn typename_case(ctx: &mut Ctx, used: &[String], bytes: &[u8], k: usize) {
-    let schema: String = used.iter().map(|n| format!("scalar {n}\n")).collect();
+fn typename_case(ctx: &mut Ctx, used: &[String], bytes: &[u8], k: usize) { typename_case_k(ctx, used, bytes, k, None) }
+
+/// the carrier type of the union / fragment / operation forms below; part of the used set when they are used
+const CARRIER: &str = "Zq9";
+
+/// `with_document` preloads the used set from NINE kinds of definitions (objects, interfaces, enums, directives,
+/// unions, input objects, scalars, fragments, named operations). `rot = Some(r)`: used name i is declared as kind
+/// (i + r) % 9; `None`: all scalars (the original form)
+fn used_schema(used: &[String], rot: Option<usize>) -> String {
+    let Some(r) = rot else { return used.iter().map(|n| format!("scalar {n}\n")).collect() };
+    let mut s = format!("type {CARRIER} {{ a: Int }}\n");
+    for (i, n) in used.iter().enumerate() {
+        if n == CARRIER { continue; }
+        s.push_str(&match (i + r) % 9 {
+            0 => format!("scalar {n}\n"),
+            1 => format!("type {n} {{ a: Int }}\n"),
+            2 => format!("interface {n} {{ a: Int }}\n"),
+            3 => format!("enum {n} {{ A }}\n"),
+            4 => format!("union {n} = {CARRIER}\n"),
+            5 => format!("input {n} {{ a: Int }}\n"),
+            6 => format!("directive @{n} on FIELD\n"),
+            7 => format!("fragment {n} on {CARRIER} {{ a }}\n"),
+            _ => format!("query {n} {{ a }}\n"),
+        });
+    }
+    s
+}
+
+fn typename_case_k(ctx: &mut Ctx, used_in: &[String], bytes: &[u8], k: usize, rot: Option<usize>) {
+    let mut used_v: Vec<String> = used_in.to_vec();
+    if rot.is_some() && !used_v.iter().any(|n| n == CARRIER) { used_v.push(CARRIER.to_string()); }
+    let used: &[String] = &used_v;
+    if rot.is_some() { ctx.stat("typename_cases_mixed_kinds"); }
+    let schema: String = used_schema(used, rot);
     let r = catch(|| {
         let cst = apollo_parser::Parser::new(&schema).parse();
         let doc = apollo_smith::Document::try_from(cst.document()).map_err(|e| format!("{e:?}"))?;
@@ -392,7 +451,7 @@ fn typename_case(ctx: &mut Ctx, used: &[String], bytes: &[u8], k: usize) {
         for _ in 0..k { out.push(String::from(b.type_name().map_err(|e| format!("{e:?}"))?)); }
         Ok::<_, String>(out)
     });
-    let input = format!("used [{}] bytes {} calls {k}", used.join(","), bytes_str(bytes));
+    let input = match rot { None => format!("used [{}] bytes {} calls {k}", used.join(","), bytes_str(bytes)), Some(r) => format!("used [{}] declared as `{}` (rotation {r}) bytes {} calls {k}", used.join(","), schema.replace('\n', " "), bytes_str(bytes)) };
     let out = match r {
         Err(m) => { ctx.fail(&format!("smith-panic:{}", class_of(&m)), &input, "type_name panicked"); "PANIC".to_string() }
         Ok(Err(e)) => { ctx.fail("smith-typename-error", &input, &format!("type_name returned {e}")); "ERR".to_string() }
@@ -562,7 +621,12 @@ fn has_input_cycle(schema: &Schema) -> bool {
     edges.keys().any(|n| reach_from(n, &edges).contains(n))
 }
 
-fn operations_against(ctx: &mut Ctx, schema_text: &str, bytes: &[u8], label: &str) {
+fn operations_against(ctx: &mut Ctx, schema_text: &str, bytes: &[u8], label: &str) { operations_against_f(ctx, schema_text, "", bytes, label) }
+
+/// `fragments_text`: fragment definitions (valid against the schema, acyclic) that the smith document carries in
+/// addition to the schema, so that `fragment_spread()` has something to choose from; a generated operation is
+/// validated together with the fragments it (transitively) spreads
+fn operations_against_f(ctx: &mut Ctx, schema_text: &str, fragments_text: &str, bytes: &[u8], label: &str) {
     let Ok(schema) = Schema::parse_and_validate(schema_text, "schema.graphql") else { ctx.stat("op_schema_rejected"); return; };
     // schemas with recursive input objects: `input_value_for_type` used not to return on them (repaired). They are
     // generated against like any other schema — unless the child-process probe, run first, died: then the defect is
@@ -572,8 +636,16 @@ fn operations_against(ctx: &mut Ctx, schema_text: &str, bytes: &[u8], label: &st
         ctx.stat("op_schema_with_recursive_input_object");
     }
     let facts = ast::Document::parse(schema_text, "schema.graphql").map(|d| doc_facts(&d)).unwrap_or_default();
+    let with_frags = !fragments_text.is_empty();
+    let full_text = format!("{schema_text}\n{fragments_text}");
+    let frag_defs: Vec<(String, Vec<String>, String, String)> = if with_frags {
+        ast::Document::parse(fragments_text, "fragments.graphql").map(|d| d.definitions.iter().filter_map(|def| match def {
+            ast::Definition::FragmentDefinition(f) => { let mut v = vec![]; collect_spreads(&f.selection_set, &mut v); Some((f.name.to_string(), v, f.type_condition.to_string(), f.to_string())) }
+            _ => None,
+        }).collect()).unwrap_or_default()
+    } else { vec![] };
     let r = catch(|| {
-        let cst = apollo_parser::Parser::new(schema_text).parse();
+        let cst = apollo_parser::Parser::new(&full_text).parse();
         let doc = apollo_smith::Document::try_from(cst.document()).map_err(|e| format!("{e:?}"))?;
         let mut u = Unstructured::new(bytes);
         let mut b = DocumentBuilder::with_document(&mut u, doc).map_err(|e| format!("{e:?}"))?;
@@ -594,6 +666,21 @@ fn operations_against(ctx: &mut Ctx, schema_text: &str, bytes: &[u8], label: &st
         Ok(Err(_)) => ctx.stat("op_gen_err"),
         Ok(Ok(ops)) => for op in ops {
             ctx.stat("ops_generated");
+            // the operation together with the given fragments it reaches
+            let op = if with_frags {
+                let mut direct = vec![];
+                if let Ok(d) = ast::Document::parse(op.as_str(), "op.graphql") { for def in &d.definitions { if let ast::Definition::OperationDefinition(o) = def { collect_spreads(&o.selection_set, &mut direct); } } }
+                let mut fedges: BTreeMap<String, Vec<String>> = frag_defs.iter().map(|(n, v, _, _)| (n.clone(), v.clone())).collect();
+                fedges.insert("<op>".into(), direct.clone());
+                let reach = reach_from("<op>", &fedges);
+                ctx.stat("frag_ops_generated");
+                if !direct.is_empty() { ctx.stat("frag_ops_with_spread"); }
+                for (n, _, cond, _) in &frag_defs { if direct.contains(n) { ctx.stat(&format!("frag_ops_spread_of_fragment_on:{cond}")); } }
+                if direct.len() >= 2 { ctx.stat("frag_ops_with_two_or_more_spreads"); ctx.nontrivial(&format!("fragop{label}{}", direct.join(","))); }
+                let mut t = op.clone();
+                for (n, _, _, text) in &frag_defs { if reach.contains(n) { t.push('\n'); t.push_str(text); } }
+                t
+            } else { op };
             match ExecutableDocument::parse_and_validate(&schema, &op, "op.graphql") {
                 Ok(_) => ctx.stat("ops_valid"),
                 Err(e) => {
@@ -602,6 +689,149 @@ fn operations_against(ctx: &mut Ctx, schema_text: &str, bytes: &[u8], label: &st
                 }
             }
         },
+    }
+}
+
+// ---------------------------------------------------------------- type_name against all nine preloaded kinds
+
+fn typename_kinds_stream(ctx: &mut Ctx) {
+    let s = |x: &str| x.to_string();
+    // each kind alone holds the colliding name: the base and its first suffix must both be avoided
+    for r in 0..9 {
+        typename_case_k(ctx, &[s("A")], &[spell("A"), spell("A")].concat(), 2, Some(r));
+        typename_case_k(ctx, &[s("A"), s("A0"), s("A1"), s("B"), s("B0"), s("a"), s("A2"), s("b"), s("C")], &[spell("A"), spell("B"), spell("C"), spell("a"), spell("b")].concat(), 5, Some(r));
+    }
+    // the carrier itself is a used name
+    typename_case_k(ctx, &[], &[spell(CARRIER), spell(CARRIER)].concat(), 2, Some(0));
+    let n = if ctx.thorough { 6_000 } else { 500 };
+    let vocab = ["A", "B", "a", "Ab", "A0", "A1", "q_1", "Zz9", "x"];
+    for _ in 0..n {
+        let mut used: Vec<String> = vec![];
+        for _ in 0..ctx.rng.below(12) {
+            let base = *ctx.rng.pick(&vocab);
+            let cand = if ctx.rng.chance(1, 2) { base.to_string() } else { format!("{base}{}", ctx.rng.below(3)) };
+            if !used.contains(&cand) { used.push(cand); }
+        }
+        let k = 1 + ctx.rng.below(5);
+        let mut bytes = vec![];
+        for _ in 0..k { let w: &str = *ctx.rng.pick(&vocab); bytes.extend(spell(w)); }
+        let r = ctx.rng.below(9);
+        typename_case_k(ctx, &used, &bytes, k, Some(r));
+    }
+}
+
+// ---------------------------------------------------------------- implements_interfaces with clashing field signatures
+
+/// signatures of the shared field `s` (two interfaces that declare `s` differently cannot both be implemented)
+const SIGS: [&str; 6] = ["s: Int", "s: String", "s(a: Int): Int", "s(a: String): Int", "s: [Int]", "s: Int!"];
+
+/// `implements_interfaces()` must return a set that is closed under `implements` AND whose members agree on the
+/// signature of every field they share (`try_accept_candidate`'s conflict guard: type and arguments). Oracle only:
+/// the model of `c32.implements` has no field signatures (all its interfaces declare the same field)
+fn implements_conflict_stream(ctx: &mut Ctx) {
+    let n = if ctx.thorough { 20_000 } else { 1_500 };
+    for case in 0..n {
+        let k = 2 + ctx.rng.below(5);
+        // variant of `s` per interface (None = does not declare it); a child inherits its parents' variant
+        let mut var: Vec<Option<usize>> = vec![];
+        let mut parents: Vec<Vec<usize>> = vec![];
+        let nvar = 2 + ctx.rng.below(3);
+        let base = ctx.rng.below(SIGS.len());
+        for i in 0..k {
+            let mut ps: Vec<usize> = vec![];
+            let mut v: Option<usize> = None;
+            for j in 0..i {
+                if !ctx.rng.chance(1, 3) { continue; }
+                if let (Some(a), Some(b)) = (v, var[j]) { if a != b { continue; } }
+                if v.is_none() { v = var[j]; }
+                ps.push(j);
+            }
+            // transitive parents must be listed
+            let mut all: BTreeSet<usize> = BTreeSet::new();
+            for p in &ps { all.insert(*p); for q in &parents[*p] { all.insert(*q); } }
+            if v.is_none() && ctx.rng.chance(3, 4) { v = Some((base + ctx.rng.below(nvar)) % SIGS.len()); }
+            var.push(v);
+            parents.push(all.into_iter().collect());
+        }
+        let mut schema = String::new();
+        for i in 0..k {
+            let imp = if parents[i].is_empty() { String::new() } else { format!(" implements {}", parents[i].iter().map(|p| format!("I{p}")).collect::<Vec<_>>().join(" & ")) };
+            let mut fields = format!("u{i}: Int");
+            for p in &parents[i] { fields.push_str(&format!(" u{p}: Int")); }
+            if let Some(v) = var[i] { fields.push(' '); fields.push_str(SIGS[v]); }
+            schema.push_str(&format!("interface I{i}{imp} {{ {fields} }}\n"));
+        }
+        if case == 0 { if let Err(e) = Schema::parse_and_validate(format!("{schema} type Query {{ a: Int }}"), "s.graphql") { ctx.fail("harness-implements-conflict-schema-invalid", &schema, &e.errors.to_string()); } }
+        let bytes: Vec<u8> = (0..2 + ctx.rng.below(14)).map(|_| if ctx.rng.chance(1, 3) { ctx.rng.next() as u8 } else { ctx.rng.below(8) as u8 }).collect();
+        let r = catch(|| {
+            let cst = apollo_parser::Parser::new(&schema).parse();
+            let doc = apollo_smith::Document::try_from(cst.document()).map_err(|e| format!("{e:?}"))?;
+            let mut u = Unstructured::new(&bytes);
+            let mut b = DocumentBuilder::with_document(&mut u, doc).map_err(|e| format!("{e:?}"))?;
+            let picked = b.implements_interfaces().map_err(|e| format!("{e:?}"))?;
+            Ok::<_, String>(picked.into_iter().map(String::from).collect::<Vec<String>>())
+        });
+        let input = format!("interfaces `{}` bytes {}", schema.replace('\n', " "), bytes_str(&bytes));
+        ctx.stat("implements_conflict_cases");
+        match r {
+            Err(m) => ctx.fail(&format!("smith-panic:{}", class_of(&m)), &input, "implements_interfaces panicked"),
+            Ok(Err(_)) => ctx.stat("implements_conflict_gen_err"),
+            Ok(Ok(picked)) => {
+                let idx: Vec<usize> = picked.iter().filter_map(|p| p[1..].parse().ok()).collect();
+                for i in &idx { for p in &parents[*i] { if !idx.contains(p) { ctx.fail("smith-implements-not-transitive", &input, &format!("picked I{i} but not I{p}")); } } }
+                let vs: BTreeSet<usize> = idx.iter().filter_map(|i| var[*i]).collect();
+                if vs.len() > 1 { ctx.fail("smith-implements-conflicting-signatures", &input, &format!("picked {} whose declarations of `s` differ", picked.join(","))); }
+                let distinct_vars: BTreeSet<usize> = var.iter().flatten().cloned().collect();
+                if distinct_vars.len() > 1 { ctx.stat("implements_conflict_cases_with_clashing_interfaces"); }
+                if distinct_vars.len() > 1 && idx.len() >= 2 { ctx.stat("implements_conflict_picked_two_or_more"); ctx.nontrivial(&input); }
+            }
+        }
+    }
+}
+
+// ---------------------------------------------------------------- operations against a schema WITH fragments
+
+/// (schema, fragments): fragments on objects, interfaces (also an interface implementing an interface) and
+/// unions, nested spreads, inline fragments — `fragment_spread_possible` / `possible_object_types` take their
+/// interface and union branches only here (`build()` only makes fragments on object types). The fragments select
+/// argument-less fields whose names are unique per type, so any conflict is the generator's doing
+const FRAG_SCHEMAS: [(&str, &str); 3] = [
+    ("schema { query: Q mutation: M } interface Node { id: ID! } interface Named implements Node { id: ID! name: String }
+      type Q implements Node { id: ID! node: Node named: Named a: A b: B c: C u: U w: W list: [Node!] find(id: ID!, n: Int = 1): Node }
+      type M { touch: Node b: B } type A implements Node & Named { id: ID! name: String x: Int b: B }
+      type B implements Node { id: ID! y: Float a: A u: U c: C } type C { z: Int q: Q } union U = A | B union W = C | B",
+     "fragment fNode on Node { id } fragment fNamed on Named { id name } fragment fA on A { x ...fNode } fragment fB on B { y a { ...fA } }
+      fragment fC on C { z } fragment fU on U { __typename ...fA } fragment fW on W { ... on C { z } ...fB } fragment fQ on Q { id ...fNode } fragment fM on M { __typename }"),
+    // disjoint islands: nothing defined for one island may be spread in the other
+    ("schema { query: Q } interface I { i: Int } interface J { j: Int } type Q { p: P r: R ip: I jr: J }
+      type P implements I { i: Int r: R } type R implements J { j: Int p: P } union UP = P union UR = R",
+     "fragment fI on I { i } fragment fJ on J { j } fragment fP on P { i ...fI } fragment fR on R { j ...fJ } fragment fUP on UP { ...fP } fragment fUR on UR { ...fR }"),
+    // an interface without implementers, a union of one member, a diamond
+    ("schema { query: Q subscription: S } interface Top { t: Int } interface L implements Top { t: Int l: Int } interface Rr implements Top { t: Int r: Int } interface Lonely { e: Int }
+      type Q { top: Top l: L r: Rr d: D o: O lonely: Lonely } type S { d: D } type D implements L & Rr & Top { t: Int l: Int r: Int o: O } type O implements Top { t: Int d: D } union One = O",
+     "fragment fTop on Top { t } fragment fL on L { l ...fTop } fragment fRr on Rr { r ...fTop } fragment fD on D { ...fL ...fRr } fragment fO on O { t d { ...fD } } fragment fOne on One { ...fO } fragment fLonely on Lonely { e }"),
+];
+
+fn fragment_ops_stream(ctx: &mut Ctx, mark: &dyn Fn(&str, &[u8])) {
+    // the given fragments must be valid against their schema (a harness fact, checked once per run)
+    for (i, (schema, frags)) in FRAG_SCHEMAS.iter().enumerate() {
+        let root = if i == 0 { "a" } else if i == 1 { "p" } else { "top" };
+        // all the fragments next to an operation that spreads none: only "must be used" may be reported
+        let probe = format!("{{ {root} {{ __typename }} }} {frags}");
+        if let Ok(s) = Schema::parse_and_validate(*schema, "schema.graphql") {
+            if let Err(e) = ExecutableDocument::parse_and_validate(&s, &probe, "probe.graphql") {
+                let other: Vec<String> = e.errors.iter().map(|d| d.error.to_string()).filter(|m| !m.contains("must be used in an operation")).collect();
+                if !other.is_empty() { ctx.fail("harness-fragment-schema-invalid", &format!("fragment schema #{i}"), &other.join(" / ")); }
+            }
+        } else { ctx.fail("harness-fragment-schema-invalid", &format!("fragment schema #{i}"), "schema rejected"); }
+    }
+    let n = if ctx.thorough { 20_000 } else { 1_500 };
+    for i in 0..n {
+        let k = i % FRAG_SCHEMAS.len();
+        let mut b = gen_bytes(&mut ctx.rng);
+        b.truncate(match ctx.rng.below(3) { 0 => 40, 1 => 120, _ => 300 });
+        mark(&format!("frag-ops {k}"), &b);
+        operations_against_f(ctx, FRAG_SCHEMAS[k].0, FRAG_SCHEMAS[k].1, &b, &format!("fragment schema #{k} (`{}` with `{}`)", FRAG_SCHEMAS[k].0.split_whitespace().collect::<Vec<_>>().join(" "), FRAG_SCHEMAS[k].1.split_whitespace().collect::<Vec<_>>().join(" ")));
     }
 }
 
@@ -634,11 +864,11 @@ fn recursive_input_probe(ctx: &mut Ctx) {
 /// run `outcome` on every input in a child process first: a stack overflow (unbounded recursion in the
 /// generator, the parser or the validator) aborts the process and cannot be caught, so the parent learns
 /// from the child's progress output which input did it, records it and leaves it out
-fn crash_scan(ctx: &mut Ctx, inputs: &[Vec<u8>]) -> (BTreeSet<usize>, usize) {
+fn crash_scan(ctx: &mut Ctx, inputs: &[Inp]) -> (BTreeSet<usize>, usize) {
     let mut crashed = BTreeSet::new();
     let Ok(exe) = std::env::current_exe() else { return (crashed, inputs.len()) };
     let path = ctx.out_dir.join("e2e_inputs.txt");
-    let text: String = inputs.iter().map(|b| bytes_str(b) + "\n").collect();
+    let text: String = inputs.iter().map(|b| b.line() + "\n").collect();
     if std::fs::write(&path, text).is_err() { return (crashed, inputs.len()); }
     let mut start = 0usize;
     let mut safe_upto = 0usize;
@@ -652,7 +882,7 @@ fn crash_scan(ctx: &mut Ctx, inputs: &[Vec<u8>]) -> (BTreeSet<usize>, usize) {
         if o.status.success() { safe_upto = inputs.len(); break; }
         let last = String::from_utf8_lossy(&o.stdout).lines().last().and_then(|l| l.parse::<usize>().ok());
         let Some(i) = last else { safe_upto = inputs.len(); break };
-        ctx.fail("smith-crash", &format!("bytes {}", bytes_str(&inputs[i])),
+        ctx.fail("smith-crash", &inputs[i].label(),
             &format!("generating / parsing / validating this input killed the process ({:?}): unbounded recursion", o.status));
         crashed.insert(i);
         start = i + 1;
@@ -660,6 +890,112 @@ fn crash_scan(ctx: &mut Ctx, inputs: &[Vec<u8>]) -> (BTreeSet<usize>, usize) {
     }
     if safe_upto < inputs.len() { ctx.stat("e2e_truncated_after_repeated_crashes"); }
     (crashed, safe_upto)
+}
+
+/// one end-to-end input: the byte string and (optionally) the builder's maximums
+pub struct Inp { pub lim: Option<Limits>, pub bytes: Vec<u8> }
+impl Inp {
+    fn label(&self) -> String {
+        match &self.lim {
+            None => format!("bytes {}", bytes_str(&self.bytes)),
+            Some(l) => format!("limits {} bytes {}", l.iter().map(|x| x.to_string()).collect::<Vec<_>>().join(","), bytes_str(&self.bytes)),
+        }
+    }
+    fn line(&self) -> String {
+        match &self.lim {
+            None => bytes_str(&self.bytes),
+            Some(l) => format!("{}|{}", l.iter().map(|x| x.to_string()).collect::<Vec<_>>().join(","), bytes_str(&self.bytes)),
+        }
+    }
+    fn parse(line: &str) -> Inp {
+        let nums = |s: &str| s.split(',').filter_map(|x| x.parse::<usize>().ok()).collect::<Vec<_>>();
+        match line.split_once('|') {
+            None => Inp { lim: None, bytes: nums(line).into_iter().map(|x| x as u8).collect() },
+            Some((l, b)) => { let v = nums(l); let mut lim = [1usize; 9]; for (i, x) in v.iter().take(9).enumerate() { lim[i] = *x; } Inp { lim: Some(lim), bytes: nums(b).into_iter().map(|x| x as u8).collect() } }
+        }
+    }
+}
+
+/// maximum profiles of the low-limit family (order: scalars, enums, interfaces, objects, unions, input objects,
+/// fragments, directives, operations)
+const PROFILES: [Limits; 13] = [
+    [1, 1, 1, 1, 1, 1, 1, 1, 1],
+    [2, 2, 2, 2, 2, 2, 2, 2, 2],
+    [3, 3, 3, 3, 3, 3, 3, 3, 3],
+    [1, 1, 1, 1, 1, 1, 4, 1, 3],   // fragments and operations
+    [1, 1, 1, 2, 1, 1, 6, 1, 4],
+    [2, 2, 2, 2, 2, 2, 8, 2, 6],
+    [1, 1, 3, 3, 1, 1, 3, 1, 2],   // interfaces / objects (extensions, implements closure)
+    [1, 1, 6, 6, 1, 1, 2, 1, 1],
+    [1, 1, 4, 4, 2, 1, 5, 2, 3],
+    [1, 1, 2, 2, 3, 3, 2, 1, 2],   // unions / input objects
+    [1, 1, 1, 1, 1, 1, 1, 4, 2],   // directives
+    [1, 2, 2, 3, 1, 4, 3, 3, 3],
+    [5, 5, 5, 5, 5, 5, 5, 5, 5],
+];
+
+fn limited_inputs(ctx: &mut Ctx) -> Vec<Inp> {
+    let mut v = vec![];
+    // systematic part: every profile on counting / constant byte strings
+    for p in PROFILES.iter() {
+        for n in [0usize, 1, 4, 10, 64, 256] { v.push(Inp { lim: Some(*p), bytes: (0..n).map(|i| i as u8).collect() }); }
+        for c in 0..6u8 { v.push(Inp { lim: Some(*p), bytes: vec![c; 600] }); }
+    }
+    let n = if ctx.thorough { 24_000 } else { 1_300 };
+    for i in 0..n {
+        let lim = if i % 5 == 4 { let mut l = [1usize; 9]; for x in l.iter_mut() { *x = 1 + ctx.rng.below(4); } l } else { PROFILES[(i / 5 * 4 + i % 5) % PROFILES.len()] };
+        // the type-system phases cost some hundred bytes even with one definition of each kind (names of up to 30
+        // characters, descriptions, default values); small byte values keep names and lists short
+        let cap = match ctx.rng.below(5) { 0 => 200, 1 => 600, 2 => 1500, 3 => 3000, _ => 4096 };
+        let b: Vec<u8> = if i % 2 == 0 { let mut b = gen_bytes(&mut ctx.rng); b.truncate(cap); b } else {
+            let small = 2 + ctx.rng.below(7) as u64;
+            let noise = *ctx.rng.pick(&[4u32, 8, 16, 64]);
+            let len = cap / 2 + ctx.rng.below(cap / 2 + 1);
+            (0..len).map(|_| if ctx.rng.chance(1, noise) { ctx.rng.next() as u8 } else { (ctx.rng.next() % small) as u8 }).collect()
+        };
+        v.push(Inp { lim: Some(lim), bytes: b });
+    }
+    v
+}
+
+/// the end-to-end oracle, the structural oracles / correspondence cases and operations against the generated schema
+fn e2e(ctx: &mut Ctx, inputs: &[Inp], tag: &str, structure_budget: usize, mark: &dyn Fn(&str, &[u8])) {
+    let mut structured = 0;
+    let mut op_runs = 0;
+    let (crashed, safe_upto) = crash_scan(ctx, inputs);
+    for (idx, inp) in inputs.iter().enumerate().take(safe_upto) {
+        if crashed.contains(&idx) { continue; }
+        let bytes = &inp.bytes;
+        let input = inp.label();
+        ctx.stat(&format!("{tag}len_{}", match bytes.len() { 0..=15 => "0-15", 16..=255 => "16-255", 256..=2047 => "256-2047", _ => "2048-8192" }));
+        mark("outcome", bytes);
+        let oc = outcome_l(inp.lim.as_ref(), bytes);
+        mark("after-outcome", bytes);
+        match oc {
+            Outcome::GenErr(e) => ctx.stat(&format!("{tag}gen_err:{e}")),
+            Outcome::Panic(m) => ctx.fail(&format!("smith-panic:{}", class_of(&m)), &input, &m.chars().take(200).collect::<String>()),
+            Outcome::Syntax(_, keys) => { ctx.stat(&format!("{tag}gen_ok")); for k in keys { ctx.fail(&format!("smith-syntax:{k}"), &input, "the generated document does not parse"); } }
+            Outcome::Invalid(text, keys) => {
+                ctx.stat(&format!("{tag}gen_ok"));
+                for k in keys { ctx.fail(&format!("smith-invalid:{k}"), &input, "the generated document does not validate"); }
+                if structured < structure_budget { if let Ok(doc) = ast::Document::parse(text, "smith.graphql") { structured += 1; structure_checks(ctx, &input, &doc, tag); } }
+            }
+            Outcome::Valid(text, doc) => {
+                ctx.stat(&format!("{tag}gen_ok")); ctx.stat(&format!("{tag}valid"));
+                // the same bytes give the same document
+                if idx % 4 == 0 {
+                    match generate_l(inp.lim.as_ref(), bytes) { Ok(Ok(t2)) if t2 == text => ctx.stat(&format!("{tag}determinism_checks")), _ => ctx.fail("smith-nondeterministic", &input, "a second run on the same bytes produced a different document") }
+                }
+                if structured < structure_budget { structured += 1; structure_checks(ctx, &input, &doc, tag); }
+                // operations against this document's schema, parsed back from text
+                if op_runs < structure_budget / 2 && idx % 3 == 0 {
+                    op_runs += 1;
+                    let seed_bytes: Vec<u8> = bytes.iter().rev().cloned().collect();
+                    operations_against(ctx, &schema_only(&doc), &seed_bytes, &format!("the schema generated from {input}"));
+                }
+            }
+        }
+    }
 }
 
 pub fn run(ctx: &mut Ctx) {
@@ -670,9 +1006,9 @@ pub fn run(ctx: &mut Ctx) {
         let text = std::fs::read_to_string(path).unwrap();
         let stdout = std::io::stdout();
         for (i, line) in text.lines().enumerate().skip(start) {
-            let bytes: Vec<u8> = line.split(',').filter_map(|x| x.parse().ok()).collect();
+            let inp = Inp::parse(line);
             { let mut h = stdout.lock(); writeln!(h, "{i}").unwrap(); h.flush().unwrap(); }
-            let _ = outcome(&bytes);
+            let _ = outcome_l(inp.lim.as_ref(), &inp.bytes);
         }
         std::process::exit(0);
     }
@@ -687,6 +1023,12 @@ pub fn run(ctx: &mut Ctx) {
             let _ = b.operation_definition();
         } } }
         std::process::exit(0);
+    }
+    // developer tool: VH_C32_DUMP=<scan-file line> prints the document generated from it
+    if let Ok(line) = std::env::var("VH_C32_DUMP") {
+        let inp = Inp::parse(&line);
+        println!("{:?}", generate_l(inp.lim.as_ref(), &inp.bytes));
+        return;
     }
     // developer tool: VH_C32_SHRINK=<key> prints a minimised byte string for that failure key
     if let Ok(key) = std::env::var("VH_C32_SHRINK") {
@@ -706,51 +1048,34 @@ pub fn run(ctx: &mut Ctx) {
 
     let dbg = std::env::var("VH_C32_DEBUG").is_ok();
     let mark = |what: &str, b: &[u8]| { if dbg { std::fs::write("/work/bD/current.txt", format!("{what} {}", bytes_str(b))).unwrap(); } };
+    let t0 = std::time::Instant::now();
     recursive_input_probe(ctx);
     typename_stream(ctx);
     implements_stream(ctx);
 
     // regression inputs first (minimised failing byte strings of the recorded findings), then generated ones
-    let mut inputs: Vec<Vec<u8>> = REGRESSIONS.iter().map(|b| b.to_vec()).collect();
-    for n in [0usize, 1, 4, 10, 64, 256, 1024, 4096] { inputs.push((0..n).map(|i| i as u8).collect()); }
+    let mut inputs: Vec<Inp> = REGRESSIONS.iter().map(|b| Inp { lim: None, bytes: b.to_vec() }).collect();
+    for n in [0usize, 1, 4, 10, 64, 256, 1024, 4096] { inputs.push(Inp { lim: None, bytes: (0..n).map(|i| i as u8).collect() }); }
     let n = if ctx.thorough { 60_000 } else { 5_000 };
-    for _ in 0..n { inputs.push(gen_bytes(&mut ctx.rng)); }
+    for _ in 0..n { let b = gen_bytes(&mut ctx.rng); inputs.push(Inp { lim: None, bytes: b }); }
     let structure_budget = if ctx.thorough { 6_000 } else { 1_200 };
-    let mut structured = 0;
-    let mut op_runs = 0;
-    let (crashed, safe_upto) = crash_scan(ctx, &inputs);
-    for (idx, bytes) in inputs.iter().enumerate().take(safe_upto) {
-        if crashed.contains(&idx) { continue; }
-        let input = format!("bytes {}", bytes_str(bytes));
-        ctx.stat(&format!("len_{}", match bytes.len() { 0..=15 => "0-15", 16..=255 => "16-255", 256..=2047 => "256-2047", _ => "2048-8192" }));
-        mark("outcome", bytes);
-        let oc = outcome(bytes);
-        mark("after-outcome", bytes);
-        match oc {
-            Outcome::GenErr(e) => ctx.stat(&format!("gen_err:{e}")),
-            Outcome::Panic(m) => ctx.fail(&format!("smith-panic:{}", class_of(&m)), &input, &m.chars().take(200).collect::<String>()),
-            Outcome::Syntax(_, keys) => { ctx.stat("gen_ok"); for k in keys { ctx.fail(&format!("smith-syntax:{k}"), &input, "the generated document does not parse"); } }
-            Outcome::Invalid(text, keys) => {
-                ctx.stat("gen_ok");
-                for k in keys { ctx.fail(&format!("smith-invalid:{k}"), &input, "the generated document does not validate"); }
-                if structured < structure_budget { if let Ok(doc) = ast::Document::parse(text, "smith.graphql") { structured += 1; structure_checks(ctx, bytes, &doc); } }
-            }
-            Outcome::Valid(text, doc) => {
-                ctx.stat("gen_ok"); ctx.stat("valid");
-                // the same bytes give the same document
-                if idx % 4 == 0 {
-                    match generate(bytes) { Ok(Ok(t2)) if t2 == text => ctx.stat("determinism_checks"), _ => ctx.fail("smith-nondeterministic", &input, "a second run on the same bytes produced a different document") }
-                }
-                if structured < structure_budget { structured += 1; structure_checks(ctx, bytes, &doc); }
-                // operations against this document's schema, parsed back from text
-                if op_runs < structure_budget / 2 && idx % 3 == 0 {
-                    op_runs += 1;
-                    let seed_bytes: Vec<u8> = bytes.iter().rev().cloned().collect();
-                    operations_against(ctx, &schema_only(&doc), &seed_bytes, &format!("the schema generated from bytes {}", bytes_str(bytes)));
-                }
-            }
-        }
-    }
+    let ms = |ctx: &mut Ctx, k: &str, t: std::time::Instant| ctx.stat_n(&format!("ms_{k}"), t.elapsed().as_millis() as u64);
+    ms(ctx, "before_e2e", t0);
+    let t = std::time::Instant::now();
+    e2e(ctx, &inputs, "", structure_budget, &mark);
+    ms(ctx, "e2e_default", t);
+    let t = std::time::Instant::now();
+    // the same pipeline under low maximums: the byte string reaches the fragment / operation phases
+    let inputs = limited_inputs(ctx);
+    e2e(ctx, &inputs, "lim_", if ctx.thorough { 8_000 } else { 1_500 }, &mark);
+    ms(ctx, "e2e_low_limits", t);
+    let t = std::time::Instant::now();
+    typename_kinds_stream(ctx);
+    implements_conflict_stream(ctx);
+    ms(ctx, "typename_kinds_and_implements_conflict", t);
+    let t = std::time::Instant::now();
+    fragment_ops_stream(ctx, &mark);
+    ms(ctx, "fragment_ops", t);
     // operations against fixed schemas
     let n_ops = if ctx.thorough { 30_000 } else { 3_000 };
     for i in 0..n_ops {
